@@ -74,11 +74,10 @@ theorem delItemList_ok (f : Forest) (n : Bool) (m : Meta) (its : Items) (idx : I
   · exact notify_ok _ _ (rawDelList_ok f m its _ hf hits)
   · exact rawDelList_ok f m its _ hf hits
 
-theorem detachedOld_ok {m : Meta} {its : Items} {k : Key} (hits : okItems m.id m.path its = true) :
-    ∀ t ∈ (match getKey its k with
-      | some (Tree.node om oits) => some (Tree.setPath [] (Tree.setParent none (Tree.node om oits)))
-      | _ => none).toList, t.okRoot = true := by
+theorem dictDetached_ok {m : Meta} {its : Items} {k : Key} (hits : okItems m.id m.path its = true) :
+    ∀ t ∈ (dictDetached its k).toList, t.okRoot = true := by
   intro t ht
+  unfold dictDetached at ht
   simp only [Option.mem_toList] at ht
   split at ht
   · next om oits hold =>
@@ -86,23 +85,27 @@ theorem detachedOld_ok {m : Meta} {its : Items} {k : Key} (hits : okItems m.id m
     exact okRoot_setPath [] _ (okRoot_setParent none _ (okRoot_of_okSub (getKey_ok hits hold)))
   · cases ht
 
+theorem dictErase_ok (f : Forest) (m : Meta) (its : Items) (k : Key) (hf : f.ok = true)
+    (hits : okItems m.id m.path its = true) : (dictErase f m its k).ok = true := by
+  unfold dictErase
+  exact addRoots_ok _ _ (mapAt_ok f m.id _ (erase_local m.id k) hf) (dictDetached_ok hits)
+
+theorem rawSetDict_missing_cases (f : Forest) (m : Meta) (its : Items) (k : Key) (hk : m.kind = .dict) :
+    rawSetDict Cfg.patched f m its k (.atom .missing) = .ok (f, false) ∨
+    rawSetDict Cfg.patched f m its k (.atom .missing) = .ok (dictErase f m its k, true) := by
+  by_cases h1 : sameValue (.atom .missing) (getKey its k) = true
+  · left; simp [rawSetDict, h1]
+  by_cases h2 : hasKey its k = true
+  · right; simp [rawSetDict, h1, h2, VE.isMissing, dictBadKey, hk, isObjKind]
+  · left; simp [rawSetDict, h1, h2, VE.isMissing]
+
 theorem rawSetDict_missing_ok (f : Forest) (m : Meta) (its : Items) (k : Key) (hf : f.ok = true)
     (hits : okItems m.id m.path its = true) (hk : m.kind = .dict) :
     ∀ r, rawSetDict Cfg.patched f m its k (.atom .missing) = .ok r → r.1.ok = true := by
   intro r hr
-  simp only [rawSetDict, hk, VE.isMissing, isObjKind, Bool.true_and, Bool.not_false, Bool.and_true] at hr
-  by_cases hs : (Option.map (sameAtom (VE.atom Atom.missing)) (getKey its k)).getD false = true
-  · simp only [hs, if_true] at hr
-    cases hr; exact hf
-  simp only [hs] at hr
-  by_cases hh : hasKey its k = true
-  · simp only [hh, Bool.not_true, if_true] at hr
-    simp at hr
-    cases hr
-    exact addRoots_ok _ _ (mapAt_ok f m.id _ (erase_local m.id k) hf) (detachedOld_ok hits)
-  · simp only [Bool.not_eq_true] at hh
-    simp [hh] at hr
-    cases hr; exact hf
+  rcases rawSetDict_missing_cases f m its k hk with h | h
+  · rw [h] at hr; cases hr; exact hf
+  · rw [h] at hr; cases hr; exact dictErase_ok f m its k hf hits
 
 theorem permute_ok (f : Forest) (t : Nat) (g : Items → Items) (hg : NoNewValues g) (hf : f.ok = true) :
     (permute Cfg.patched f t g).ok = true := by
@@ -291,29 +294,24 @@ theorem delItemList_free (f : Forest) (n : Bool) (m : Meta) (its : Items) (idx :
   · exact notify_free _ _ (rawDelList_free f m its _ hf)
   · exact rawDelList_free f m its _ hf
 
+theorem dictDetached_free (its : Items) (k : Key) : ∀ t ∈ (dictDetached its k).toList, t.parentless = true := by
+  intro t ht
+  unfold dictDetached at ht
+  simp only [Option.mem_toList] at ht
+  split at ht
+  · cases ht
+    rw [setPath_parentless]; exact setParent_none_parentless _
+  · cases ht
+
 theorem rawSetDict_missing_free (f : Forest) (m : Meta) (its : Items) (k : Key) (hf : f.rootsFree = true)
     (hk : m.kind = .dict) :
     ∀ r, rawSetDict Cfg.patched f m its k (.atom .missing) = .ok r → r.1.rootsFree = true := by
   intro r hr
-  simp only [rawSetDict, hk, VE.isMissing, isObjKind, Bool.true_and, Bool.not_false, Bool.and_true] at hr
-  by_cases hs : (Option.map (sameAtom (VE.atom Atom.missing)) (getKey its k)).getD false = true
-  · simp only [hs, if_true] at hr
-    cases hr; exact hf
-  simp only [hs] at hr
-  by_cases hh : hasKey its k = true
-  · simp only [hh, Bool.not_true, if_true] at hr
-    simp at hr
-    cases hr
-    apply addRoots_free _ _ (mapAt_free f m.id _ hf)
-    intro t ht
-    simp only [Option.mem_toList] at ht
-    split at ht
-    · cases ht
-      rw [setPath_parentless]; exact setParent_none_parentless _
-    · cases ht
-  · simp only [Bool.not_eq_true] at hh
-    simp [hh] at hr
-    cases hr; exact hf
+  rcases rawSetDict_missing_cases f m its k hk with h | h
+  · rw [h] at hr; cases hr; exact hf
+  · rw [h] at hr; cases hr
+    unfold dictErase
+    exact addRoots_free _ _ (mapAt_free f m.id _ hf) (dictDetached_free its k)
 
 theorem delItemDict_free (f : Forest) (n : Bool) (m : Meta) (its : Items) (k : Key) (acc : Bool)
     (hf : f.rootsFree = true) (hk : m.kind = .dict) :
